@@ -5,7 +5,7 @@ from props._searchprop import SEARCH_TARGETS, SEARCH_TRUST, run_search_prop, rep
 
 PROP = 'C03'
 LEAN_TARGETS = SEARCH_TARGETS
-THEOREMS = ['MM.Search.' + n for n in ('C03_sound', 'C03_complete', 'C03_nodup', 'C03_topk', 'C03_optimal', 'exhaustive_spec', 'designLt_strictWeak_on_nanFree')]
+THEOREMS = ['MM.Search.' + n for n in ('C03_sound', 'C03_complete', 'C03_nodup', 'C03_topk', 'C03_optimal', 'exhaustive_spec', 'designLt_strictWeak_on_nanFree', 'tie_share', 'tie_budget_screen', 'tie_volume')]
 TRUSTED_BASE = SEARCH_TRUST + ['feasibility is over the admitted geos (documented behaviour of geos_within_constraints / n_geos_max); scores containing NaN are outside the claim']
 
 
